@@ -479,6 +479,20 @@ func (c *checker) partB() (n int64) {
 	// plus a cross-chain spend: reported region, still enumerated
 	kinds = append(kinds, akind{"crosschain-1of2(k2,k3)", keys.PrefixCrossChain, keys.CrossChainCode(1, keys.Pubs(2, 3)...),
 		func(d []byte) []byte { return keys.SigParam(keys.Sign(2, d, 0)) }, nil})
+	// m == n multisig scripts under every prefix that RunPrograms routes by code kind
+	// (multisig 0x12, standard 0x21, deposit 0x1f); the cross-chain twin under 0x4b
+	for _, pre := range []byte{keys.PrefixMultiSig, keys.PrefixStandard, keys.PrefixDeposit} {
+		pre := pre
+		kinds = append(kinds,
+			akind{fmt.Sprintf("multisig-2of2(k2,k3)@prefix%02x", pre), pre, keys.MultiSigCode(2, keys.Pubs(2, 3)...),
+				func(d []byte) []byte { return keys.SigParam(keys.Sign(2, d, 0), keys.Sign(3, d, 0)) }, nil},
+			akind{fmt.Sprintf("multisig-3of3(k4,k5,k6)@prefix%02x", pre), pre, keys.MultiSigCode(3, keys.Pubs(4, 5, 6)...),
+				func(d []byte) []byte { return keys.SigParam(keys.Sign(6, d, 0), keys.Sign(4, d, 0), keys.Sign(5, d, 0)) }, nil},
+			akind{fmt.Sprintf("multisig-1of2(k2,k3)@prefix%02x", pre), pre, keys.MultiSigCode(1, keys.Pubs(2, 3)...),
+				func(d []byte) []byte { return keys.SigParam(keys.Sign(3, d, 0)) }, nil})
+	}
+	kinds = append(kinds, akind{"crosschain-2of2(k2,k3)", keys.PrefixCrossChain, keys.CrossChainCode(2, keys.Pubs(2, 3)...),
+		func(d []byte) []byte { return keys.SigParam(keys.Sign(2, d, 0), keys.Sign(3, d, 0)) }, nil})
 	var total int64
 	par.Go(len(kinds), func(ki int) {
 		k := kinds[ki]
@@ -486,6 +500,17 @@ func (c *checker) partB() (n int64) {
 		data := unsigned(tx)
 		param := k.sign(data)
 		ph := k.hash()
+		// no valid signatures at all: zero signatures, one signature dropped, empty parameter
+		if len(param)%65 == 0 {
+			zero := make([]byte, len(param))
+			for i := 0; i < len(zero); i += 65 {
+				zero[i] = 0x40
+			}
+			atomic.AddInt64(&total, 3)
+			c.runOne("zero-signatures", ph, k.code, zero, data, false, k.name)
+			c.runOne("fewer-signatures", ph, k.code, param[:len(param)-65], data, false, k.name)
+			c.runOne("zero-signatures", ph, k.code, zero, otherData(data), false, k.name+" altered data")
+		}
 		if !c.runOne("mutation-seed", ph, k.code, param, data, true, k.name) {
 			return
 		}
@@ -638,6 +663,12 @@ func (c *checker) partC(thorough bool) (cases int64) {
 			}
 			// seam 2: RunPrograms, multisig address
 			c.runOne("mofn-multisig", common.Uint168(keys.ProgramHash(keys.PrefixMultiSig, msCode)), msCode, param, data, canonical && j.n >= 2, desc)
+			// seam 2b: the same multisig script under the standard and deposit prefixes
+			// ("multisig deposit": RunPrograms decides by code kind there)
+			if j.n <= 3 || distinct == j.n {
+				c.runOne("mofn-multisig@21", common.Uint168(keys.ProgramHash(keys.PrefixStandard, msCode)), msCode, param, data, canonical && j.n >= 2, desc)
+				c.runOne("mofn-multisig@1f", common.Uint168(keys.ProgramHash(keys.PrefixDeposit, msCode)), msCode, param, data, canonical && j.n >= 2, desc)
+			}
 			// seam 3: RunPrograms, cross-chain address (reported region), small n only
 			if j.n <= 3 {
 				c.runOne("mofn-crosschain", common.Uint168(keys.ProgramHash(keys.PrefixCrossChain, ccCode)), ccCode, param, data, false, desc)
@@ -749,6 +780,24 @@ func (c *checker) partD() (constructorsOK int) {
 			}
 			ct, err = contract.CreateMultiSigContract(m, pks)
 			add(fmt.Sprintf("CreateMultiSigContract(%d of %d)", m, n), ct, err)
+		}
+	}
+	// multisig deposit addresses (producers registered with a multi-signature owner) and a
+	// multisig script paid to under the standard prefix: constructed by code
+	for n := 2; n <= 4; n++ {
+		for m := 1; m <= n; m++ {
+			var pks []*crypto.PublicKey
+			for i := 0; i < n; i++ {
+				pks = append(pks, rp(2+i))
+			}
+			code, err := contract.CreateMultiSigRedeemScript(m, pks)
+			if err != nil || code == nil {
+				continue
+			}
+			ct, err = contract.CreateDepositContractByCode(code)
+			add(fmt.Sprintf("CreateDepositContractByCode(multisig %d of %d)", m, n), ct, err)
+			ct, err = contract.CreateStandardContractByCode(code)
+			add(fmt.Sprintf("CreateStandardContractByCode(multisig %d of %d)", m, n), ct, err)
 		}
 	}
 	for _, cn := range ctors {
@@ -946,6 +995,29 @@ func main() {
 		}
 		evid.Fatalf("canonical valid spends were rejected (%d classes) — the accept-side oracle would be vacuous; first: %v", c.validRej.Len(), l)
 	}
+	// the (prefix, code layout) classes that end up accepted outside the owned-address region on
+	// the unchanged tree, pinned: a class joining this set means a new kind of program is
+	// accepted unverified (the table is the tree's own behaviour at the time of writing)
+	pinnedUnverified := map[string]bool{
+		"prefix=1f layout=crosschain bound_to_address=true signatures_valid=false":    true,
+		"prefix=1f layout=unclassified bound_to_address=true signatures_valid=false":  true,
+		"prefix=21 layout=crosschain bound_to_address=true signatures_valid=false":    true,
+		"prefix=21 layout=unclassified bound_to_address=true signatures_valid=false":  true,
+		"prefix=4b layout=crosschain bound_to_address=false signatures_valid=true":    true,
+		"prefix=4b layout=crosschain bound_to_address=true signatures_valid=true":     true,
+		"prefix=4b layout=unclassified bound_to_address=false signatures_valid=false": true,
+		"prefix=4b layout=unclassified bound_to_address=true signatures_valid=false":  true,
+	}
+	var newClasses []string
+	for k := range c.noSig.Map() {
+		if !pinnedUnverified[k] {
+			newClasses = append(newClasses, k)
+		}
+	}
+	sort.Strings(newClasses)
+	for _, k := range newClasses {
+		r.Violate("C05|unverified-class-set-changed|"+k, "a (prefix, code layout) class that was not accepted unverified before is now accepted outside the signature rules", map[string]interface{}{"kind": "class", "class": k})
+	}
 	var noSig []string
 	for k, v := range c.noSig.Map() {
 		noSig = append(noSig, fmt.Sprintf("%s (x%d)", k, v))
@@ -964,6 +1036,7 @@ func main() {
 			"B: every single-byte substitution (16-value alphabet) of code, parameter and signed bytes of each kind's valid spend, plus signatures over every proper prefix (and one-byte extension) of the signed bytes and every prefix presented with the full signature, through RunPrograms; " +
 			"C: 1<=m<=n<=4 x every assignment of keys to script slots (incl. one key in several slots) x signer sequences of length 0..n+1 over {each script key (j-th use = j-th distinct signature), foreign key, garbage} (quick: n=4 as multisets in both orders) through VerifyMultisigSignatures and RunPrograms; " +
 			"E: every transaction type of GetTransaction x payload version 0..3, spending a foreign standard address with {no program, foreign program, tampered signature, correct program} through checkTransactionSignature; the observed set of (type, version) classes that verify no program must equal the pinned table; " +
+			"m==n multisig scripts (2of2, 3of3) and 1of2 under prefixes 0x12/0x21/0x1f and the cross-chain twin get the full mutation family plus zero-signature / dropped-signature / altered-data spends; part C also runs every m-of-n signer sequence under the standard and deposit prefixes (n<=3, and n=4 with distinct keys); constructors include multisig deposit and standard-by-code contracts for 1<=m<=n<=4; the set of classes accepted outside the owned region is pinned; " +
 			"D: 7 prefixes x 15 code classes x 5 unsigned/foreign parameters x hash match/mismatch; all address constructors for n<=4. non-trivial = accepted spends, each judged by the independent verifier",
 		"exhaustive":                 true,
 		"address_set_skeletons":      sets,
